@@ -383,7 +383,7 @@ type ProxyOptions struct {
 	BackendURL string
 	ChainID    int64         // < 0: not configured (the proxy queries net_version at start)
 	ExtraYAML  string        // appended to the config verbatim
-	StartWait  time.Duration // default 15s
+	StartWait  time.Duration // default 60s
 }
 
 type Proxy struct {
@@ -410,6 +410,20 @@ func freePort() (int, error) {
 // (or the process exits — e.g. chain id discovery failed — which is returned as an error together
 // with the *Proxy so that ExitCode/Log can be inspected).
 func StartProxy(o ProxyOptions) (*Proxy, error) {
+	// the free port is found by binding and releasing it, so another process can take it before
+	// ffsigner binds: retry on "address already in use"
+	var p *Proxy
+	var err error
+	for attempt := 0; attempt < 4; attempt++ {
+		p, err = startProxyOnce(o)
+		if err == nil || p == nil || !strings.Contains(p.Log(), "address already in use") {
+			return p, err
+		}
+	}
+	return p, err
+}
+
+func startProxyOnce(o ProxyOptions) (*Proxy, error) {
 	if err := os.MkdirAll(o.WorkDir, 0o755); err != nil {
 		return nil, err
 	}
@@ -450,7 +464,7 @@ func StartProxy(o ProxyOptions) (*Proxy, error) {
 	p.client = &http.Client{Timeout: 60 * time.Second, Transport: &http.Transport{MaxIdleConnsPerHost: 128, MaxConnsPerHost: 0}}
 	wait := o.StartWait
 	if wait == 0 {
-		wait = 15 * time.Second
+		wait = 60 * time.Second
 	}
 	// The listening socket exists as soon as the server object is built — before Start() has
 	// discovered the chain id — so readiness is "an eth_accounts POST is answered", not "the port
